@@ -8,7 +8,11 @@ Open Scope Z_scope.
 
 Definition iv0 (w : world) : Z := t_interval (w_tm w 0%nat).
 
+(* callbacks that leave through SystemExit / KeyboardInterrupt end the loop's batch and leave handles queued: excluded here *)
+Definition nofatal (st : step) : Prop := is_fatal st = false.
+
 Record TInv (w : world) : Prop := mk_TInv {
+  t_nofatal : Forall nofatal (w_scr w 0%nat);
   t_tgt : forall h, In h (handles w) -> htgt h = TRun 0;
   t_pool : w_pool w = [];
   t_nt : (w_nt w <= 1)%nat;
@@ -16,7 +20,7 @@ Record TInv (w : world) : Prop := mk_TInv {
   t_soon : iv0 w = 0 -> forall h, In h (handles w) -> hwhen h <= w_now w
 }.
 
-Ltac tinv H := destruct H as [Ttgt Tpool Tnt Trdy Tsoon].
+Ltac tinv H := destruct H as [Tnf Ttgt Tpool Tnt Trdy Tsoon].
 
 Definition on_time (evs : list event) : Prop := Forall tick_on_time evs.
 
@@ -55,8 +59,8 @@ Lemma tinv_bind w b v : TInv w ->
   TInv (mk_world (w_now w) (w_next w) (w_sched w) (w_ready w) (w_canc w) (w_nt w) (w_tm w) (w_scr w) b v (w_pool w)).
 Proof. intros H. tinv H. constructor; wsimpl; assumption. Qed.
 
-Lemma tinv_scr w s : TInv w -> TInv (set_scr w s).
-Proof. intros H. tinv H. constructor; wsimpl; assumption. Qed.
+Lemma tinv_scr w s : TInv w -> Forall nofatal (s 0%nat) -> TInv (set_scr w s).
+Proof. intros H Hs. tinv H. constructor; wsimpl; assumption. Qed.
 
 Lemma do_action_t cfg st w w' evs raised :
   TInv w -> do_action cfg st w = (w', evs, raised) ->
@@ -66,7 +70,7 @@ Proof.
   set (w1 := set_now w (w_now w + Z.max 0 (s_dur st))) in *.
   assert (H1 : TInv w1) by (apply tinv_advance; [assumption | lia]).
   assert (Hn : w_now w <= w_now w1) by (unfold w1, set_now; cbn [w_now]; lia).
-  destruct (s_act st) as [|j|k| | |k].
+  destruct (s_act st) as [|j|k|rk| |k].
   - inversion E; subst. refine (conj H1 (conj eq_refl (conj eq_refl (conj eq_refl (conj Hn _))))). constructor.
   - destruct (sys_timerc j w1) as [w2 r] eqn:Et. inversion E; subst w' evs raised; clear E.
     destruct (tinv_timerc _ _ _ _ H1 Et) as (A & B & C & D & F).
@@ -88,7 +92,8 @@ Lemma epilogue_t cfg fl st raised w w' evs :
   flags_fixed fl -> TInv w -> epilogue fl cfg 0%nat st raised w = (w', evs) ->
   TInv w' /\ (iv0 w <> 0 -> w_ready w' = w_ready w) /\ iv0 w' = iv0 w /\ on_time evs.
 Proof.
-  intros (Fg & Fc & Fm & Ft & _) H E. unfold epilogue, continue_or_stop in E. rewrite Fg, Fc, Ft in E.
+  intros (Fg & Fc & Fcb & Fm & Ft & _) H E. unfold epilogue, continue_or_stop in E. rewrite Fg, Fc, Fcb, Ft in E.
+  replace (match s_act st with ARaise RExc => true | _ => true end) with true in E by (destruct (s_act st) as [| | |[| |]| |]; reflexivity).
   assert (Hdel : forall d, TInv (set_delegate w 0%nat d) /\ iv0 (set_delegate w 0%nat d) = iv0 w).
   { intros d. assert (Hiv : iv0 (set_delegate w 0%nat d) = iv0 w) by (unfold iv0; wsimpl; rewrite upd_same; reflexivity).
     split; [|exact Hiv]. tinv H. constructor; try (wsimpl; assumption). }
@@ -132,25 +137,31 @@ Proof.
   - intros E x Hx. apply (Tsoon E). rewrite Er. apply in_mid_inv. assumption.
 Qed.
 
-Lemma run_handle_t cfg fl w h r w' evs :
+Lemma run_handle_t cfg fl w h r w' evs fatal :
   flags_fixed fl -> TInv w -> w_ready w = h :: r ->
-  run_handle fl cfg h (set_ready w r) = (w', evs) ->
-  TInv w' /\ (iv0 w <> 0 -> w_ready w' = r) /\ iv0 w' = iv0 w /\ on_time evs.
+  run_handle fl cfg h (set_ready w r) = (w', evs, fatal) ->
+  TInv w' /\ (iv0 w <> 0 -> w_ready w' = r) /\ iv0 w' = iv0 w /\ on_time evs /\ fatal = false.
 Proof.
   intros Hfl H Er E. pose proof (tinv_set_ready _ _ _ H Er) as H0.
   unfold run_handle in E. change (w_canc (set_ready w r) (hid h)) with (w_canc w (hid h)) in E.
   destruct (w_canc w (hid h)) eqn:Ec.
-  - inversion E; subst w' evs. refine (conj H0 (conj (fun _ => eq_refl) (conj eq_refl _))). constructor.
+  - inversion E; subst w' evs fatal. refine (conj H0 (conj (fun _ => eq_refl) (conj eq_refl (conj _ eq_refl)))). constructor.
   - assert (Ht : htgt h = TRun 0). { apply (t_tgt _ H). unfold handles. rewrite Er. apply in_or_app. right. left. reflexivity. }
     assert (Hon : hwhen h <= w_now w). { apply (t_rdy _ H); [rewrite Er; left; reflexivity | assumption]. }
     rewrite Ht in E. unfold run_timer in E.
     match type of E with context [do_action cfg ?st ?w0] => destruct (do_action cfg st w0) as [[w1 evs1] raised] eqn:Ea end.
     match type of E with context [epilogue ?a ?b ?c ?st ?e ?f] => destruct (epilogue a b c st e f) as [w2 eve] eqn:Ee end.
-    inversion E; subst w' evs; clear E.
-    apply (tinv_scr _ (upd (w_scr (set_ready w r)) 0%nat (tl (w_scr (set_ready w r) 0%nat)))) in H0.
+    assert (Hnf : Forall nofatal (w_scr w 0%nat)) by (apply (t_nofatal _ H)).
+    assert (Hf : is_fatal match w_scr w 0%nat with s :: _ => s | [] => default_step end = false).
+    { destruct (w_scr w 0%nat) as [|s0 rest]; [reflexivity|]. inversion Hnf; assumption. }
+    inversion E; subst w' evs fatal; clear E.
+    assert (Htl : Forall nofatal (upd (w_scr (set_ready w r)) 0%nat (tl (w_scr (set_ready w r) 0%nat)) 0%nat)).
+    { rewrite upd_same. change (w_scr (set_ready w r) 0%nat) with (w_scr w 0%nat).
+      destruct (w_scr w 0%nat) as [|s0 rest]; [constructor|]. inversion Hnf; assumption. }
+    apply (tinv_scr _ (upd (w_scr (set_ready w r)) 0%nat (tl (w_scr (set_ready w r) 0%nat)))) in H0; [|exact Htl].
     destruct (do_action_t _ _ _ _ _ _ H0 Ea) as (A1 & A2 & A3 & A4 & A5 & A6).
     destruct (epilogue_t _ _ _ _ _ _ _ Hfl A1 Ee) as (B1 & B2 & B3 & B4).
-    refine (conj B1 (conj _ (conj _ _))).
+    refine (conj B1 (conj _ (conj _ (conj _ Hf)))).
     + intros Hiv. rewrite B2 by (rewrite A4; exact Hiv). rewrite A2. reflexivity.
     + rewrite B3, A4. reflexivity.
     + constructor; [exact Hon|]. apply on_time_app; assumption.
@@ -165,10 +176,10 @@ Proof.
     intros _ Hl. destruct (w_ready w'); [reflexivity | cbn in Hl; lia].
   - destruct (w_ready w) as [|h r] eqn:Er.
     + inversion E; subst. refine (conj H (conj _ (conj eq_refl _))); [auto | constructor].
-    + destruct (run_handle fl cfg h (set_ready w r)) as [w1 e1] eqn:E1.
+    + destruct (run_handle fl cfg h (set_ready w r)) as [[w1 e1] fatal] eqn:E1.
+      destruct (run_handle_t _ _ _ _ _ _ _ _ Hfl H Er E1) as (A1 & A2 & A3 & A4 & ->).
       destruct (run_ready fl cfg n w1) as [w2 e2] eqn:E2.
       inversion E; subst w' evs; clear E.
-      destruct (run_handle_t _ _ _ _ _ _ _ Hfl H Er E1) as (A1 & A2 & A3 & A4).
       destruct (IH _ _ _ Hfl A1 E2) as (B1 & B2 & B3 & B4).
       refine (conj B1 (conj _ (conj _ _))).
       * intros Hiv Hl. apply B2; [rewrite A3; exact Hiv|]. rewrite (A2 Hiv). cbn [length] in Hl. lia.
@@ -279,15 +290,15 @@ Proof.
 Qed.
 
 Lemma create_timer_t cfg iv w w' evs :
-  w_sched w = [] -> w_ready w = [] -> w_nt w = 0%nat -> w_pool w = [] ->
+  w_sched w = [] -> w_ready w = [] -> w_nt w = 0%nat -> w_pool w = [] -> Forall nofatal (w_scr w 0%nat) ->
   create_timer cfg iv w = (w', evs) -> TInv w' /\ Bd w' /\ on_time evs.
 Proof.
-  intros Es Er En Ep E. unfold create_timer in E. rewrite En in E.
+  intros Es Er En Ep Hsc E. unfold create_timer in E. rewrite En in E.
   destruct (iv =? 0) eqn:Ei.
   - apply Z.eqb_eq in Ei. unfold call_soon, add_timer in E. cbn [w_now w_next w_sched w_ready w_canc w_nt w_tm w_scr w_bind w_nver w_pool] in E.
     rewrite Es, Er, En in E. inversion E; subst w' evs; clear E.
     refine (conj _ (conj _ _)); [| |repeat constructor].
-    + constructor; unfold handles, iv0; cbn [w_now w_sched w_ready w_canc w_nt w_pool w_tm app]; try assumption; try lia.
+    + constructor; unfold handles, iv0; cbn [w_now w_sched w_ready w_canc w_nt w_pool w_tm w_scr app]; try assumption; try lia.
       * intros h [<-|[]]. reflexivity.
       * intros h [<-|[]] _. cbn [hwhen]. lia.
       * intros _ h [<-|[]]. cbn [hwhen]. lia.
@@ -295,7 +306,7 @@ Proof.
   - unfold call_at, add_timer in E. cbn [w_now w_next w_sched w_ready w_canc w_nt w_tm w_scr w_bind w_nver w_pool] in E.
     rewrite Es, Er, En in E. cbn [insert_h] in E. inversion E; subst w' evs; clear E.
     refine (conj _ (conj _ _)); [| |repeat constructor].
-    + constructor; unfold handles, iv0; cbn [w_now w_sched w_ready w_canc w_nt w_pool w_tm app]; try assumption; try lia.
+    + constructor; unfold handles, iv0; cbn [w_now w_sched w_ready w_canc w_nt w_pool w_tm w_scr app]; try assumption; try lia.
       * intros h [<-|[]]. reflexivity.
       * intros h [].
       * rewrite upd_same. cbn [t_interval]. intros E0. apply Z.eqb_neq in Ei. contradiction.
@@ -306,10 +317,10 @@ Qed.
    wake-up at or after the earliest deadline: every tick at or after the deadline of its handle, and
    (with C15_ticks) the strict checker accepts the history. *)
 Theorem single_timer_on_time fl cfg t0 gap iv scr lats fuel :
-  flags_fixed fl -> 0 < c_res cfg -> Forall (fun l => 0 <= l) lats ->
+  flags_fixed fl -> 0 < c_res cfg -> Forall (fun l => 0 <= l) lats -> Forall nofatal scr ->
   on_time (snd (simulate fl cfg t0 [] [mk_tspec gap iv scr] [] lats fuel)).
 Proof.
-  intros Hfl Hres Hl. unfold simulate.
+  intros Hfl Hres Hl Hscr. unfold simulate.
   destruct (create_all cfg [mk_tspec gap iv scr] (arm_exts cfg [] (world0 t0 []))) as [w1 e1] eqn:E1.
   destruct (run_loop fl cfg fuel lats w1) as [w2 e2] eqn:E2. cbn [snd].
   pose proof (arm_exts_inv (c_res cfg) cfg [] _ _ (ginv_world0 (c_res cfg) t0 [])) as G0.
@@ -318,11 +329,11 @@ Proof.
   assert (T : TInv w1 /\ Bd w1 /\ on_time e1).
   { destruct (iv <? 0) eqn:En.
     - inversion E1; subst w1 e1. refine (conj _ (conj _ _)); [| |constructor].
-      + constructor; unfold handles, iv0; cbn; try reflexivity; try lia; intros; contradiction.
+      + constructor; unfold handles, iv0; cbn; try reflexivity; try lia; try constructor; intros; contradiction.
       + intros _. reflexivity.
     - match type of E1 with context [create_timer cfg iv ?w0] => destruct (create_timer cfg iv w0) as [w3 e3] eqn:E3 end.
       inversion E1; subst w1 e1; clear E1. rewrite app_nil_r.
-      eapply create_timer_t; [| | | | exact E3]; reflexivity. }
+      eapply create_timer_t; [| | | | | exact E3]; try reflexivity. cbn [w_scr set_scr set_now world0 w_nt]. rewrite upd_same. exact Hscr. }
   destruct T as (T1 & B1 & O1).
   apply on_time_app; [assumption|].
   eapply run_loop_t; eauto.
